@@ -49,7 +49,8 @@ CHECKS = {
         text="As C01 with formula C03 (no run of more than max_continuous_silence invalid frames inside a chain of contiguous "
              "tokens, first/last frame validity). Thorough tier: the run bound is also proved for ALL parameter values and stream lengths "
              "by an inductive invariant of the integer abstraction TokenizerInt (Apalache, 3 obligations); TLC checks the same invariant on "
-             "the concrete registers (AbsInv).",
+             "the concrete registers (AbsInv). On observed runs the statement is also evaluated on the DELIVERED data (per-frame validity "
+             "logged with every token), which does not presuppose that tokens are slices.",
         ref="DESIGN.md 5/C03", technique="TLA+ model checking (TLC) + behaviour replay + trace validation", note=TOK_NOTE),
     "C04": dict(
         text="TLC proves that the automaton refines the declarative greedy segmentation Seg (written without reference to the "
@@ -95,14 +96,17 @@ CHECKS = {
         text="TLC proves on the Reader spec that the implementation-shaped wrapper stack (limiter counter, overlap generator phases, "
              "recorder) returns exactly the declarative closed form of the statement for every configuration (n,b,h,max_read,record) "
              "and operation history of the bound; every exported maximal history is executed on a real AudioReader over 7 source "
-             "kinds; long seeded histories with decimal durations are judged by TLC (ReaderTrace). Construction rejections are a decision table.",
+             "kinds (incl. wav files laid out unlike Python's wave module writes them, pipe-like stdin, pre-positioned buffer sources); long seeded "
+             "histories with decimal durations, reads before open() and close() on recording readers are judged by TLC (ReaderTrace). Construction "
+             "rejections are a decision table.",
         ref="DESIGN.md 5/C10, Appendix D", technique="TLA+ model checking (TLC) + spec->code history replay + code->spec trace validation",
         note=READER_NOTE),
     "C11": dict(
         text="TLC enumerates every transition (state x call x argument) of the abstract audio source for buffer / raw / wav / stdin and "
              "checks C11 on it; leg R is one implementation test per transition (pre-state established on a fresh real source, result "
              "and post-state compared); leg T validates seeded call sequences of the real sources (incl. dense position_ms / position_s "
-             "sweeps at realistic rates) against SourceTrace with TLC.",
+             "sweeps at realistic rates, and reads of more than 2^20 samples from multi-megabyte 1-3 channel files as compressed events) against "
+             "SourceTrace with TLC.",
         ref="DESIGN.md 5/C11", technique="TLA+ model checking (TLC) + one implementation test per model transition + trace validation",
         note=READER_NOTE + " read(0), sub-sample negative instants and non-dyadic position_s values are not generated (O3-O5); stdin is a BytesIO-backed sys.stdin."),
     "C12": dict(
@@ -114,14 +118,17 @@ CHECKS = {
              "(monitors on the observed end state: ids 1..n in order for every observer, detections = segmentation of the blocks read, "
              "all threads ended) and WorkersTrace (step conformance). Leg X enumerates depth-first EVERY schedule of tiny pipelines on the real "
              "threads (complete for 1 window / 1 observer: 256 schedules); observers include PrintWorker, RegionSaverWorker, PlayerWorker (mock "
-             "player), CommandLineWorker (recorded os.system); the command-line main loop itself runs under the controller.",
+             "player), CommandLineWorker (recorded command); the command-line main loop itself runs under the controller. The controlled queue "
+             "implements queue.Queue faithfully (bounded, timed / non-blocking put and get), Thread.join(timeout) may be let expire; runs of "
+             "hundreds (thorough: 10^4) of detections under a descriptor limit of 200 cover per-detection resources.",
         ref="DESIGN.md 5/C12, 3.3, 4.3", technique="TLA+ model checking incl. liveness (TLC) + schedule replay into real threads + trace validation",
         note=WORKERS_NOTE),
     "C13": dict(
         text="Same model and controller: C13Safe (saved file is a prefix of the blocks read, equal and closed at the end, any cache "
              "threshold); observed runs with StreamSaverWorker (cache thresholds 0..inf), AudioEventsJoinerWorker (joined file = events "
              "separated by round(silence*rate) zero samples), RegionSaverWorker (file names from the template, audio = detection) and "
-             "PrintWorker are projected and judged by TLC on WorkersObs.",
+             "PrintWorker are projected and judged by TLC on WorkersObs; gaps include buffer-sized (2^k frames) and exact-tie durations; the thorough "
+             "tier holds a run of more than 10^4 detections (ids, one file per detection).",
         ref="DESIGN.md 5/C13", technique="TLA+ model checking (TLC) + schedule replay into real threads + trace validation", note=WORKERS_NOTE),
     "C14": dict(
         text="The stop request (stop_all) is enabled in every running state of the model (exhaustive over the crash point and all "
@@ -141,7 +148,9 @@ CHECKS = {
         ref="DESIGN.md 5/C15", technique="TLA+ enumeration of option vectors (TLC) + one command-line execution per vector judged by TLC against the API",
         note="Trusted: TLC/SANY, CPython, argparse; main() runs in worker processes with its 1 s poll shortened. Printed whole-millisecond values must "
              "equal int(v*1000) of the float v the API reports and lie within one millisecond below the exact instant (O2); %S within half a "
-             "millisecond (+5%). Microphone input, -E/-C/-p/--save-image (PyAudio, shell commands, matplotlib) are not exercised."),
+             "millisecond (+5%). Inputs include 22 050 Hz files (where -a is not a whole number of samples the API call the parameters correspond to is "
+             "split(AudioReader(input, block_dur=a)), observation O11) and a non-ASCII --printf template. -E/-C/--debug-file/-D/-T/--save-image are "
+             "exercised by the extra check X04, the microphone by X01."),
     "C16": dict(
         text="Region.tla states slicing twice: implementation-shaped (byte offsets, unnormalised stop) and declarative (Python slicing on "
              "samples); TLC checks them equal for every (length, bytes-per-sample, start, stop) of the bound and enumerates the seconds view "
@@ -153,14 +162,15 @@ CHECKS = {
         text="Region.tla: the division loop vs 'min(n,len) pieces differing by at most one whose concatenation is the original' checked by TLC "
              "for every (length, divisor); concat / sum / repeat / join / silence / equality / parameter errors / frozen fields / ragged data "
              "as actions of RegionTrace over a POOL of regions whose results feed later operations; after every call all pool members are "
-             "re-projected (operands unchanged).",
+             "re-projected (operands unchanged). Silence durations include dyadic values whose product with the rate is exactly k + 1/2 (round half to even).",
         ref="DESIGN.md 5/C17", technique="TLA+ case enumeration (TLC) + trace validation of operation sequences over a region pool", note=REGION_NOTE),
     "C18": dict(
         text="Files.tla is a file-system state machine (names -> format, header parameters, sample ids): TLC explores every history of saves "
              "(wav/raw, exists_ok) and loads (skip/max_read on a half-sample grid) of the bound and checks load o save = identity, "
              "load(skip,max_read) = the slice, exists_ok=False never changes an existing file; exported histories are executed with real files; "
              "seeded histories (7 sample formats, placeholder templates, str/Path names, eager/lazy, decimal skip/max_read, numpy export decoded by "
-             "TLC with Energy!Window) are judged by TLC on FilesTrace.",
+             "TLC with Energy!Window, wav files planted by other software with a non-canonical chunk layout, multi-megabyte files loaded with skip / "
+             "max_read beyond 2^20 samples as compressed events) are judged by TLC on FilesTrace.",
         ref="DESIGN.md 5/C18", technique="TLA+ model checking (TLC) + history replay with real files + trace validation",
         note="Trusted: TLC/SANY, CommunityModules, CPython, wave, numpy, the local file system; file contents are read back byte-for-byte and projected "
              "to sample ids; expected file names are rendered by the harness from the region's attributes; skip/max_read at least 1/20 sample from a "
@@ -168,7 +178,8 @@ CHECKS = {
     "C19": dict(
         text="Same Reader spec: invariants C19 (recorded data = consumed prefix, each sample once, never beyond max_read) and C19Replay "
              "(blocks after a rewind replay those before it); data before the first rewind and data/rewind on non-recording readers "
-             "are error outcomes of the spec; legs R/T as for C10 with histories read^k rewind read^j rewind ...",
+             "are error outcomes of the spec; legs R/T as for C10 with histories read^k rewind read^j rewind ..., close() before a rewind, recorders over "
+             "pre-positioned buffer sources, and one history of more than 4 000 reads replayed after the rewind.",
         ref="DESIGN.md 5/C19, Appendix D", technique="TLA+ model checking (TLC) + spec->code history replay + code->spec trace validation",
         note=READER_NOTE),
     "C20": dict(
@@ -177,7 +188,8 @@ CHECKS = {
              "TLC proves equal tokens (and the explanatory invariant about registers read before being overwritten). One REAL tokenizer is "
              "reused after complete / dropped / kept-alive / late-closed generators and list / callback runs, each later run judged by TLC as a "
              "fresh run; repeated split() of the same bytes / region / rewound recorder (SplitTrace, peer), one energy validator on shuffled "
-             "windows (EnergyTrace), buffer source close/reopen (SourceTrace).",
+             "windows incl. one buffer refilled in place (EnergyTrace), buffer source close/reopen (SourceTrace), several splits with equal parameters "
+             "alive at once and consumed interleaved (SplitTrace).",
         ref="DESIGN.md 5/C20", technique="TLA+ self-composition model checking (TLC) + trace validation of reused real objects", note=TOK_NOTE),
 }
 
